@@ -108,6 +108,7 @@ def install(w):
     for name, mul in NANOS.items():
         M['Duration::' + name] = (lambda mul: lambda ex, c, a: ex.binop('Mul', ex.cast(a[0], 'u64', 'IntToInt'),
                                                                           Int('u64', mul)))(mul)
+    M['Duration::is_zero'] = lambda ex, c, a: ex.binop('Eq', deref(a[0]), Int('u64', 0))
     M['Duration::as_nanos'] = lambda ex, c, a: ex.cast(deref(a[0]), 'u128', 'IntToInt')
     M['Duration::as_millis'] = lambda ex, c, a: ex.cast(ex.binop('Div', deref(a[0]), Int('u64', 1000000)), 'u128',
                                                         'IntToInt')
